@@ -355,6 +355,83 @@ fn sop() -> BoxedStrategy<SOp> {
     .boxed()
 }
 
+/// Transcript of one session of a case executed alone (used by the child process)
+pub fn single_session_transcript(case: &Case, idx: usize) -> Vec<String> {
+    let mut run = Run::default();
+    let s = &case.scripts[idx];
+    for _ in 0..steps(s) {
+        step(&mut run, s);
+    }
+    run.transcript
+}
+
+/// Process-history independence: the transcript of a session computed in this (long-lived, many
+/// suites already used) process must equal the one computed by a fresh process that runs nothing else.
+fn fresh_process_check(x: &mut Extra) {
+    use std::io::Write;
+    let exe = match std::env::current_exe() {
+        Ok(e) => e,
+        Err(e) => {
+            x.infra_error = Some(format!("current_exe: {}", e));
+            return;
+        }
+    };
+    let sweeps = P.sweeps(Tier::Quick);
+    let cases = &sweeps[0].1;
+    let mut compared = 0u64;
+    for k in (0..cases.len()).step_by(7) {
+        let case = &cases[k];
+        let idx = k % case.scripts.len();
+        let here = single_session_transcript(case, idx);
+        let js = serde_json::to_string(case).unwrap_or_default();
+        let child = std::process::Command::new(&exe)
+            .args(["c18-child", &idx.to_string()])
+            .stdin(std::process::Stdio::piped())
+            .stdout(std::process::Stdio::piped())
+            .stderr(std::process::Stdio::null())
+            .spawn();
+        let mut child = match child {
+            Ok(c) => c,
+            Err(e) => {
+                x.infra_error = Some(format!("cannot spawn child process: {}", e));
+                return;
+            }
+        };
+        if let Some(mut si) = child.stdin.take() {
+            let _ = si.write_all(js.as_bytes());
+        }
+        let out = match child.wait_with_output() {
+            Ok(o) => o,
+            Err(e) => {
+                x.infra_error = Some(format!("child process: {}", e));
+                return;
+            }
+        };
+        let there: Vec<String> = match serde_json::from_slice(&out.stdout) {
+            Ok(v) => v,
+            Err(_) => {
+                x.infra_error = Some("child process produced no transcript".into());
+                return;
+            }
+        };
+        compared += 1;
+        if here != there {
+            let d = here.iter().zip(there.iter()).position(|(a, b)| a != b).unwrap_or(0);
+            x.failure = Some((
+                "C18/transcript-differs/fresh-process".into(),
+                format!(
+                    "session {} of sweep case {} ({}): the transcript computed in this process (after many other library calls) differs from the one a fresh process computes for the same inputs, first at step {}: `{}` vs `{}`",
+                    idx, k, case.scripts[idx].sess.suite.label(), d, here.get(d).cloned().unwrap_or_default(), there.get(d).cloned().unwrap_or_default()
+                ),
+                json!({"probe": "fresh_process", "sweep_case": k, "session": idx}),
+            ));
+            return;
+        }
+    }
+    x.evaluations += compared;
+    x.notes.insert("fresh_process_comparisons".into(), json!(compared));
+}
+
 fn probe_dir() -> std::path::PathBuf {
     crate::engine::root().join("probes").join("c18")
 }
@@ -390,7 +467,7 @@ impl Property for P {
     }
     fn rule(&self) -> String {
         "Generated: scripts of 2..=6 independent sessions (any of 48 suites), each a short list of setup, seals, opens, a failing open and exports on both sides; sessions deliberately share components with the first one with probability 1/2 each (recipient key, info, psk, RNG stream, suite) so that a cache keyed on part of the inputs is hit; an interleaving (owned by the harness, single-threaded) and a thread count 2..=8. \
-         Oracle: per-session transcripts (enc, ciphertexts, plaintexts, exports, errors, RNG bytes drawn) are identical in: sequential order, reverse order, the generated interleaving, every operation on a different thread (contexts moved between threads through channels), every session on its own thread concurrently, and a second sequential execution later in the process; concurrent shared-reference exports equal the sequential values. Compile probe probes/c18: Send + Sync for contexts, keys, tags, encapsulated keys, shared secrets, PskBundle, OpModeS/R, HpkeError over all 48 suites. \
+         Oracle: per-session transcripts (enc, ciphertexts, plaintexts, exports, errors, RNG bytes drawn) are identical in: sequential order, reverse order, the generated interleaving, every operation on a different thread (contexts moved between threads through channels), every session on its own thread concurrently, and a second sequential execution later in the process; concurrent shared-reference exports equal the sequential values; for 28 sweep sessions (one per 7th suite x mode cell) the transcript computed in this long-lived process equals the one computed by a fresh child process that runs nothing else (process-history independence). Compile probe probes/c18: Send + Sync for contexts, keys, tags, encapsulated keys, shared secrets, PskBundle, OpModeS/R, HpkeError over all 48 suites. \
          Non-trivial: >=2 sessions whose interleaving switches context between two seals of the same context."
             .into()
     }
@@ -477,6 +554,10 @@ impl Property for P {
         400
     }
     fn extra(&self, _tier: Tier, _seed: u64, x: &mut Extra) {
+        fresh_process_check(x);
+        if x.failure.is_some() || x.infra_error.is_some() {
+            return;
+        }
         match send_sync_probe() {
             Ok((true, _)) => {
                 x.evaluations += 1;
@@ -489,7 +570,7 @@ impl Property for P {
         }
     }
     fn replay_extra(&self, payload: &serde_json::Value, x: &mut Extra) {
-        if payload["probe"] == "send_sync" {
+        if payload["probe"] == "send_sync" || payload["probe"] == "fresh_process" {
             self.extra(Tier::Quick, 0, x);
         }
     }
